@@ -306,3 +306,20 @@ by apply: (marker_sum_zero_scaled hP (zC_real D) iP); apply: rv.
 Qed.
 
 End AtC.
+
+(* ---------- the hypotheses of the C18 theorems are satisfiable with a non-zero marker ---------- *)
+Lemma marker_hyps_nonvacuous (C : numClosedFieldType) :
+  exists (P : 'M[C]_4) (x y : 'rV[C]_4) (X Y : C) (i : 'I_4),
+    [/\ hermitian P, idempotent P, realv x, realv y & crosshair P x y X Y i != 0].
+Proof.
+have [pj [ch _]] := P4z_example.
+have [hP iP] := gz_projb_sound C pj.
+have c0 : zC C (Zpos 4) != 0 by rewrite /zC intr_eq0.
+have [hP' iP'] := scaled_projector c0 (zC_real C _) hP iP.
+have [_ ent] := @crosshair_num_correct C 4 P4z xs4 ys4 _ _ _ (erefl _) ch.
+exists ((zC C (Zpos 4))^-1 *: gzmx C 4 P4z), (zrv C 4 xs4), (zrv C 4 ys4), (zC C (Zpos 2)), (zC C (Zpos 2)), ord0.
+split=> //; try by move=> j; rewrite mxE Lmap_map nthdE; case: (ltnP j 4) => h;
+  [rewrite (nth_map Z0) // zC_real | rewrite nth_default // real0].
+rewrite /crosshair marker_scaleP ?rpredV ?zC_real // -/(crosshair _ _ _ _ _ _) -ent /=.
+by rewrite mulf_neq0 ?expf_neq0 ?invr_eq0 // /zC intr_eq0.
+Qed.
